@@ -42,11 +42,14 @@ func streamEval(c *Ctx, cs Case, prop string) {
 		}
 		return
 	}
-	b := unhx(cs.S("bytes"))
+	b := streamBytes(cs)
 	cls := cs.S("class")
 	if cls == "" {
 		cls = "unclassified"
 	}
+	// streams above 100 KiB are judged against the harness's own walk of the stream only (walkSpec, written
+	// from the layout in the statement); below that the Lean Spec codec is asked as well and the two must agree
+	big := len(b) > 100<<10
 	var db signature.SignatureDatabase
 	var err error
 	t0 := time.Now()
@@ -86,21 +89,35 @@ func streamEval(c *Ctx, cs Case, prop string) {
 	if len(b) < 200 {
 		c.Sample(cs)
 	}
-	r := c.Drv.Ask("sigdb.read", hx(b))
-	// r = "model=<...> spec=<...>"
-	mi := strings.Index(r, " spec=")
-	if !strings.HasPrefix(r, "model=") || mi < 0 {
-		c.Fail(Failure{Kind: "tie", What: "driver answer malformed", Case: cs, Model: r})
-		return
+	spec := walkSpec(b)
+	if big {
+		c.Class(fmt.Sprintf("stream-above-100KiB/%dKiB", len(b)>>10))
+	} else {
+		r := c.Drv.Ask("sigdb.read", hx(b))
+		// r = "model=<...> spec=<...>"
+		mi := strings.Index(r, " spec=")
+		if !strings.HasPrefix(r, "model=") || mi < 0 {
+			c.Fail(Failure{Kind: "tie", What: "driver answer malformed", Case: cs, Model: clip(r)})
+			return
+		}
+		model, leanSpec := r[len("model="):mi], r[mi+len(" spec="):]
+		c.Trace()
+		if model != goObs {
+			c.Fail(Failure{Kind: "tie", What: "ReadSignatureDatabase: model and implementation disagree", Case: cs, Model: clip(model), Go: clip(goObs)})
+		}
+		c.GenTie(cs, "ReadSignatureDatabase / Bytes", model, "gen.sigdb.read", hx(b))
+		if leanSpec != spec {
+			c.Fail(Failure{Kind: "tie", What: "the Lean Spec codec and the harness's own walk of the stream (walkSpec) disagree on what the stream holds", Case: cs, Model: clip(leanSpec), Go: clip(spec)})
+		}
+		spec = leanSpec
 	}
-	model, spec := r[len("model="):mi], r[mi+len(" spec="):]
-	c.Trace()
-	if model != goObs {
-		c.Fail(Failure{Kind: "tie", What: "ReadSignatureDatabase: model and implementation disagree", Case: cs, Model: clip(model), Go: clip(goObs)})
-	}
-	c.GenTie(cs, "ReadSignatureDatabase / Bytes", model, "gen.sigdb.read", hx(b))
+	var diffAt func() string
 	fail := func(what, matcher string) {
-		c.Fail(Failure{Kind: "property", Matcher: matcher, What: what, Case: cs, Go: clip(goObs), Spec: clip(spec)})
+		g := clip(goObs)
+		if diffAt != nil {
+			g = diffAt() + " | " + g
+		}
+		c.Fail(Failure{Kind: "property", Matcher: matcher, What: what, Case: cs, Go: g, Spec: clip(spec)})
 	}
 	if panicked {
 		fail("decoder panicked: "+pmsg, "")
@@ -113,6 +130,36 @@ func streamEval(c *Ctx, cs Case, prop string) {
 	specOK := strings.HasPrefix(spec, "some ")
 	if specOK {
 		specLists = parseLists(spec[5:])
+	}
+	// where the decoded database first differs from what the stream holds (entry by entry against the input)
+	diffAt = func() string {
+		if err != nil || !specOK {
+			return "-"
+		}
+		for i, sl := range specLists {
+			if i >= len(db) {
+				return fmt.Sprintf("first difference: list %d of %d is missing", i, len(specLists))
+			}
+			l := db[i]
+			if hx(wireGUID(l.SignatureType)) != sl.typ || fmt.Sprint(l.ListSize) != sl.listSize || fmt.Sprint(l.HeaderSize) != sl.hdrSize || fmt.Sprint(l.Size) != sl.size {
+				return fmt.Sprintf("first difference: header of list %d", i)
+			}
+			for j, sg := range sl.sigs {
+				if j >= len(l.Signatures) {
+					return fmt.Sprintf("first difference: list %d has %d entries, the stream holds %d", i, len(l.Signatures), len(sl.sigs))
+				}
+				if g := l.Signatures[j]; hx(wireGUID(g.Owner)) != sg[0] || hx(g.Data) != sg[1] {
+					return fmt.Sprintf("first difference: list %d entry %d of %d: decoded %s:%s, the stream holds %s:%s", i, j, len(sl.sigs), hx(wireGUID(g.Owner)), clip60(hx(g.Data)), sg[0], clip60(sg[1]))
+				}
+			}
+			if len(l.Signatures) != len(sl.sigs) {
+				return fmt.Sprintf("first difference: list %d has %d entries, the stream holds %d", i, len(l.Signatures), len(sl.sigs))
+			}
+		}
+		if len(db) != len(specLists) {
+			return fmt.Sprintf("first difference: %d lists decoded, the stream holds %d", len(db), len(specLists))
+		}
+		return "-"
 	}
 	if prop == "C08" && err == nil {
 		// success only if the whole input is well-formed lists, and exactly those lists
@@ -684,6 +731,179 @@ func faultCasesAtBoundaries(c *Ctx, b []byte, salt int, emit func(Case)) {
 	}
 }
 
+func clip60(s string) string {
+	if len(s) > 60 {
+		return s[:60] + "…"
+	}
+	return s
+}
+
+// walkSpec reads a byte string as the statement's layout defines a signature database, independently of the
+// library and of the Lean model: a concatenation of EFI_SIGNATURE_LISTs (type GUID, ListSize, HeaderSize,
+// SignatureSize as 32-bit little-endian numbers, header, signatures) with SignatureSize at least 16 and ListSize
+// = 28 + HeaderSize + count * SignatureSize, every signature the owner GUID followed by SignatureSize-16 data
+// bytes, the whole input used up. The answer has the form of the driver's Spec answer ("some <lists>" / "none").
+func walkSpec(b []byte) string {
+	var sb strings.Builder
+	sb.WriteString("some ")
+	n := 0
+	for off := 0; off < len(b); n++ {
+		if len(b)-off < 28 {
+			return "none"
+		}
+		ls, hs, sz := uint64(binary.LittleEndian.Uint32(b[off+16:])), uint64(binary.LittleEndian.Uint32(b[off+20:])), uint64(binary.LittleEndian.Uint32(b[off+24:]))
+		if sz < 16 || ls < 28+hs || (ls-28-hs)%sz != 0 || uint64(len(b)-off) < ls {
+			return "none"
+		}
+		if n > 0 {
+			sb.WriteByte('|')
+		}
+		fmt.Fprintf(&sb, "%s;%d;%d;%d;%s;", hx(b[off:off+16]), ls, hs, sz, hx(b[off+28:off+28+int(hs)]))
+		p := off + 28 + int(hs)
+		for k := uint64(0); k < (ls-28-hs)/sz; k++ {
+			if k > 0 {
+				sb.WriteByte(',')
+			}
+			sb.WriteString(hx(b[p : p+16]))
+			sb.WriteByte(':')
+			sb.WriteString(hx(b[p+16 : p+int(sz)]))
+			p += int(sz)
+		}
+		off += int(ls)
+	}
+	if n == 0 {
+		sb.WriteString("[]")
+	}
+	return sb.String()
+}
+
+// ---- streams given by a description ----
+//
+// Large streams are kept in the case as a description, not as megabytes (compare c14Synth): "layout" is a
+// comma-separated sequence of items, "salt" selects the owners and data (pseudo-random, all entries distinct):
+//
+//	s<n>          a SHA-256 list with n entries
+//	e<n>          an externally-managed list with n entries
+//	x<size>*<n>   an X.509 list with n entries of SignatureSize size (owner included)
+//	f<at>*<n>     an X.509 list with (at most) n equal entries that ENDS exactly at offset at of the stream
+//	g<n>          n bytes that are no list (trailing garbage: the first one is never zero)
+//	p<n>          the first n bytes of a SHA-256 list (a header that is cut off)
+func streamBytes(cs Case) []byte {
+	lay := cs.S("layout")
+	if lay == "" {
+		return unhx(cs.S("bytes"))
+	}
+	var out []byte
+	for i, it := range strings.Split(lay, ",") {
+		if it == "" {
+			continue
+		}
+		rng := mrand.New(mrand.NewSource(cs.I("salt")*1000003 + int64(i)*7919 + 1))
+		num := func(s string) (a, n int) {
+			f := strings.SplitN(s, "*", 2)
+			a = atoi(f[0])
+			n = 1
+			if len(f) == 2 {
+				n = atoi(f[1])
+			}
+			return
+		}
+		list := func(typ []byte, size, n int) []byte {
+			l := make([]byte, 28+n*size)
+			copy(l, typ)
+			binary.LittleEndian.PutUint32(l[16:], uint32(len(l)))
+			binary.LittleEndian.PutUint32(l[24:], uint32(size))
+			rng.Read(l[28:])
+			return l
+		}
+		a, n := num(it[1:])
+		switch it[0] {
+		case 's':
+			out = append(out, list(tSHA256, 48, a)...)
+		case 'e':
+			out = append(out, list(tEXT, 17, a)...)
+		case 'x':
+			if a >= 16 {
+				out = append(out, list(tX509, a, n)...)
+			}
+		case 'f':
+			room := a - len(out) - 28
+			for n > 1 && room%n != 0 {
+				n--
+			}
+			if n >= 1 && room/n >= 17 {
+				out = append(out, list(tX509, room/n, n)...)
+			}
+		case 'g':
+			g := make([]byte, a)
+			rng.Read(g)
+			if a > 0 {
+				g[0] |= 1
+			}
+			out = append(out, g...)
+		case 'p':
+			if l := list(tSHA256, 48, 2); a <= len(l) {
+				out = append(out, l[:a]...)
+			}
+		}
+	}
+	return out
+}
+
+// sizeClassLayouts: the statement quantifies over "SHA-256 lists with any count" and "X.509 lists with any
+// certificate size and count"; a decoder may treat long lists differently from short ones (entries read in
+// batches, bodies read in blocks), so the counts sit around powers of two and the list bodies around and
+// beyond 64 KiB - in one list, with entries that are all different, so that every decoded entry can be held
+// against its own bytes of the input.
+func sizeClassLayouts(c *Ctx) []string {
+	ls := []string{
+		"s127", "s128", "s129", "s2,s256,e3", "s257,x300*2", "s385", "s512", "s1023,s1", "x56*130", "x17*260", "e129", // counts
+		"s1366", "x20016*4", // a body just above 64 KiB; the model is asked too
+		"s1365,s1366", "s2200,s1", "x40000*3,s2", "x65536*2", "x65537*2", "x90000*2,x90000*1", // above 100 KiB: the harness's own walk decides
+	}
+	if c.Thorough {
+		ls = append(ls, "s255", "s256", "s1024", "s1025", "s1365", "s1367", "s2730", "s2731", "s4096", "s5461", "s10000", "x1500*44", "x1500*45", "x32768*2", "x32768*3", "x65535*3", "x131072*2", "s300,x70000*3,s1400,e200")
+	}
+	return ls
+}
+
+// boundaryLayouts: well-formed streams in which a boundary between two lists (or the end of the last list) falls
+// exactly on offset 2^k - where buffered, chunked and size-limited readers change state - followed by a further
+// list (which must be decoded), by several lists, by nothing, by bytes that are no list or by a header that is cut
+// off (which must be an error, not a shorter database). 2^20 and above are streams longer than 1 MiB.
+func boundaryLayouts(c *Ctx) []string {
+	var ls []string
+	ks := []int{12, 16, 20}
+	if c.Thorough {
+		ks = []int{8, 9, 10, 11, 12, 13, 14, 15, 16, 17, 18, 19, 20, 21, 22, 24}
+	}
+	for _, k := range ks {
+		at := 1 << uint(k)
+		all := []string{
+			fmt.Sprintf("f%d*4,s2", at), fmt.Sprintf("s3,f%d*1,g5", at), fmt.Sprintf("s3,f%d*12,x100*2,e1", at),
+			fmt.Sprintf("f%d*2", at), fmt.Sprintf("f%d*3,p16", at), fmt.Sprintf("e2,f%d*1,p28", at),
+		}
+		if k == 16 && !c.Thorough {
+			all = all[:2] // the model is asked on these: two of them in the quick tier
+		}
+		ls = append(ls, all...)
+	}
+	return ls
+}
+
+func layoutCases(c *Ctx, prop string) {
+	for i, lay := range sizeClassLayouts(c) {
+		if c.Mine(i) && c.NFailures() < 8 {
+			streamEval(c, Case{"op": "stream", "class": "wf/size-classes", "layout": lay, "salt": int64(c.Seed) + int64(i)}, prop)
+		}
+	}
+	for i, lay := range boundaryLayouts(c) {
+		if c.Mine(i) && c.NFailures() < 8 {
+			streamEval(c, Case{"op": "stream", "class": "list-boundary-at-2^k", "layout": lay, "salt": int64(c.Seed) + 100 + int64(i)}, prop)
+		}
+	}
+}
+
 func clip(s string) string {
 	if len(s) > 600 {
 		return s[:600] + "…"
@@ -889,6 +1109,8 @@ func c07Gen(c *Ctx) {
 		kind := entryClasses[i%len(entryClasses)]
 		streamEval(c, Case{"op": "stream", "class": "wf/entries-" + kind, "bytes": hx(genEntryClassStream(sub, kind))}, "C07")
 	}
+	// long lists, large bodies, list boundaries at powers of two (streams given by a description)
+	layoutCases(c, "C07")
 	// well-formed streams through a reader that fails instead of ending: before the first byte, between
 	// two lists, behind the last one (every failure kind, both delivery modes) and at a few positions inside
 	for i, b := range fx {
@@ -1042,6 +1264,8 @@ func c08Gen(c *Ctx) {
 		m[c.Rng.Intn(len(m))] ^= byte(1 << uint(c.Rng.Intn(8)))
 		emit("bitflip", m)
 	}
+	// long lists, large bodies, list boundaries at powers of two (streams given by a description)
+	layoutCases(c, "C08")
 	// generators of their own, so that the cases above stay what they were
 	sub := &Ctx{Rng: mrand.New(mrand.NewSource(c.Seed*15485863 + 5 + int64(c.Shard)*1000003)), Thorough: c.Thorough}
 	// lists WITHOUT entries (ListSize = 28 + HeaderSize): the size equation holds for every SignatureSize, so
@@ -1088,12 +1312,12 @@ func c08Gen(c *Ctx) {
 
 func init() {
 	register("C07", &PropDef{
-		Rule:   "well-formed streams: 0..6 (thorough 12) lists over X.509 (any certificate size, 0-5 entries), SHA-256 (up to 40 entries), externally-managed, plus valid-but-undecodable / unknown / headered lists in a quarter of the streams; the .esl files and captured variables of the repository; databases built by random append/remove/append-list histories and then encoded and decoded, two thirds of them starting with a list that holds one entry more than once (decoded [A,B,A] / [a,b,a,a], or built by SignatureList.AppendBytes from the DER and the PEM form of one certificate) or with PEM handed to the list-level API, followed by removals of that entry; and list-level appends to decoded lists that hold no entry but carry a signature size; one sixth of the histories start with an EXTERNALLY-MANAGED list built by the database-level Append or by the list-level AppendBytes + AppendList from a one-byte value (the only well-formed size) and a value of 0, 2 or 32 bytes in either order, encoded and decoded after every step, and the random histories use that type with the same five values (F37). Oracle on every encode-decode step: when all lists of the built database are of the types the decoder handles (X.509, SHA-256, externally-managed) the library's own decoder must accept the encoding, and the decoded database must encode to the same bytes (an equal database). Every stream is decoded through a bytes.Reader, a bytes.Buffer, a one-byte-at-a-time reader, a data-with-EOF reader or a half-count reader (chosen by a checksum of the input) over a private copy that is overwritten before the decoded database is inspected. ENTRY CLASSES that random bytes never produce (240 streams, a list of the class among 0..2 ordinary ones): one owner+data entry two or more times in a list (adjacent or apart), X.509 entries whose bytes are PEM text (distinct or repeated), equal data under different owners / one owner with different data, all-zero entries. READERS THAT FAIL: the fixtures and 60 generated well-formed streams are decoded through a reader that delivers the first k bytes and then fails with a non-EOF error (I/O error, closed file, deadline, closed pipe; the error arriving after or together with the last bytes) for k = 0, every boundary between two lists and the end of the stream (all kinds, both modes) and seven positions inside every list; oracle: a nil error only together with exactly the lists of the whole stream - a failure must not be taken for the end of the database. SEVERAL DECODERS AT THE SAME TIME (120 groups of 2 or 3 streams, two thirds of them of one layout with other owners and data): each stream is decoded on its own goroutine through a reader that parks inside Read - before it touches the destination, or after the bytes are in place but before Read returns - and hands control to the next decoder following a switch plan that is part of the case (every parking point, every 2nd / 3rd, mixed, random; full reads, 1- and 5-byte reads), so exactly one goroutine runs at a time and every run is deterministic; oracle: every call returns what the same call through the same reader returns alone. ENTRY POINTS: on every evaluated stream SignatureDatabase.Unmarshal (into a receiver that held another list; same verdict, same lists, whole buffer consumed), ReadSignatureList (the first list, exactly ListSize bytes consumed; io.EOF on empty input), Marshal into an empty buffer and into one that already holds content (that content stays, the encoding follows), WriteSignatureDatabase into a plain io.Writer and the concatenation of SignatureList.Bytes() must agree with ReadSignatureDatabase / Bytes(), so the oracles apply to them too. The histories use, for every third append / removal / query, the entry points AppendSignature / RemoveSignature / SigDataExists. Non-trivial: non-empty stream; distinct = distinct byte strings / histories / (streams, plan) groups.",
+		Rule:   "well-formed streams: 0..6 (thorough 12) lists over X.509 (any certificate size, 0-5 entries), SHA-256 (up to 40 entries), externally-managed, plus valid-but-undecodable / unknown / headered lists in a quarter of the streams; the .esl files and captured variables of the repository; databases built by random append/remove/append-list histories and then encoded and decoded, two thirds of them starting with a list that holds one entry more than once (decoded [A,B,A] / [a,b,a,a], or built by SignatureList.AppendBytes from the DER and the PEM form of one certificate) or with PEM handed to the list-level API, followed by removals of that entry; and list-level appends to decoded lists that hold no entry but carry a signature size; one sixth of the histories start with an EXTERNALLY-MANAGED list built by the database-level Append or by the list-level AppendBytes + AppendList from a one-byte value (the only well-formed size) and a value of 0, 2 or 32 bytes in either order, encoded and decoded after every step, and the random histories use that type with the same five values (F37). Oracle on every encode-decode step: when all lists of the built database are of the types the decoder handles (X.509, SHA-256, externally-managed) the library's own decoder must accept the encoding, and the decoded database must encode to the same bytes (an equal database). Every stream is decoded through a bytes.Reader, a bytes.Buffer, a one-byte-at-a-time reader, a data-with-EOF reader or a half-count reader (chosen by a checksum of the input) over a private copy that is overwritten before the decoded database is inspected. SIZE CLASSES (streams kept in the case as a description - layout and salt - and built when evaluated; all entries pseudo-random and different, so every decoded entry is held against its own bytes of the input and the first differing entry is named): SHA-256, X.509 and externally-managed lists with 127 / 128 / 129 / 256 / 257 / 260 / 385 / 512 / 1023 entries (counts around powers of two, where a decoder that reads entries in batches changes its path), ONE list whose body exceeds 64 KiB (1366, 1365+1366, 2200 SHA-256 entries; 4 certificates of 20 000 bytes, 3 of 40 000, 2 of exactly 64 KiB, of 64 KiB + 1 and of 90 000 bytes); LIST BOUNDARIES AT POWERS OF TWO: streams in which a list ends exactly at offset 2^12, 2^16 and 2^20 (a stream longer than 1 MiB; thorough: 2^8..2^22, 2^24), followed by a further list or lists (which must be decoded), by nothing, by bytes that are no list or by a cut-off header (an error, never a shorter database). Streams above 100 KiB are judged against the harness's own walk of the stream (walkSpec, written from the layout in the statement); on every smaller stream the Lean Spec codec is asked as well and the two must agree (a disagreement is a tie failure). ENTRY CLASSES that random bytes never produce (240 streams, a list of the class among 0..2 ordinary ones): one owner+data entry two or more times in a list (adjacent or apart), X.509 entries whose bytes are PEM text (distinct or repeated), equal data under different owners / one owner with different data, all-zero entries. READERS THAT FAIL: the fixtures and 60 generated well-formed streams are decoded through a reader that delivers the first k bytes and then fails with a non-EOF error (I/O error, closed file, deadline, closed pipe; the error arriving after or together with the last bytes) for k = 0, every boundary between two lists and the end of the stream (all kinds, both modes) and seven positions inside every list; oracle: a nil error only together with exactly the lists of the whole stream - a failure must not be taken for the end of the database. SEVERAL DECODERS AT THE SAME TIME (120 groups of 2 or 3 streams, two thirds of them of one layout with other owners and data): each stream is decoded on its own goroutine through a reader that parks inside Read - before it touches the destination, or after the bytes are in place but before Read returns - and hands control to the next decoder following a switch plan that is part of the case (every parking point, every 2nd / 3rd, mixed, random; full reads, 1- and 5-byte reads), so exactly one goroutine runs at a time and every run is deterministic; oracle: every call returns what the same call through the same reader returns alone. ENTRY POINTS: on every evaluated stream SignatureDatabase.Unmarshal (into a receiver that held another list; same verdict, same lists, whole buffer consumed), ReadSignatureList (the first list, exactly ListSize bytes consumed; io.EOF on empty input), Marshal into an empty buffer and into one that already holds content (that content stays, the encoding follows), WriteSignatureDatabase into a plain io.Writer and the concatenation of SignatureList.Bytes() must agree with ReadSignatureDatabase / Bytes(), so the oracles apply to them too. The histories use, for every third append / removal / query, the entry points AppendSignature / RemoveSignature / SigDataExists. Non-trivial: non-empty stream; distinct = distinct byte strings / histories / (streams, plan) groups.",
 		Assume: []string{"`handled` list types are X.509, SHA-256 (size 48) and externally-managed (size 17) with an empty header, as in the decoder's switch"},
 		Eval:   c07Eval, Gen: c07Gen,
 	})
 	register("C08", &PropDef{
-		Rule:   "near-grammar byte strings derived from generated well-formed streams of handled types: EVERY truncation point, sweeps of ListSize / HeaderSize / SignatureSize of the last list over {0,1,15,16,17,27,28,29,exact±1,+Size,2x,2^31,2^32-1,...}, trailing garbage / zeros of 1..40 bytes, a valid stream followed by the first 16/20/24/28 bytes of another list, unsupported types, single bit flips; plus the repository fixtures and cuts of them. Sources that FAIL instead of ending: every generated well-formed stream (and every fixture; positions sampled for streams above 800 bytes) is also handed to ReadSignatureDatabase and ReadSignatureList through a reader that delivers the first k bytes and then fails with a non-EOF error (I/O error, closed file, deadline exceeded, closed pipe; the error arriving after or together with the last bytes) for EVERY k in 0..len - all kinds and both modes at k = 0 and at every list boundary, where a clean end would be legitimate, the kind rotating elsewhere; oracle: the input did not end, so an error that does not match io.EOF is required and no database / list may be returned. LISTS WITHOUT ENTRIES (ListSize = 28 + HeaderSize, where the size equation holds for any SignatureSize and only the explicit bounds decide): types X.509 (also with a 3-byte header), SHA-256, externally-managed, SHA-1, unknown x SignatureSize in 0..18, 27, 28, 47..49, 2^16, 2^31-1, 2^31, 2^32-1, each alone, twice, in front of, behind and between well-formed lists. ENTRY CLASSES random bytes never produce (80 streams + truncations of them): one entry several times in a list, PEM-shaped X.509 entry bytes, equal data under different owners, all-zero entries - accepted only as exactly the lists the layout defines, never as a shorter, de-duplicated or re-coded database. ENTRY POINTS: on every stream SignatureDatabase.Unmarshal (receiver that held another list) and ReadSignatureList on the first list must give the verdict / lists of ReadSignatureDatabase and consume the whole buffer / exactly ListSize bytes, and Marshal (empty destination and one holding content), WriteSignatureDatabase into a plain writer and the lists' own Bytes() must give the bytes of Bytes(). Non-trivial: non-empty; distinct = distinct byte strings (x failure position, kind, mode).",
+		Rule:   "near-grammar byte strings derived from generated well-formed streams of handled types: EVERY truncation point, sweeps of ListSize / HeaderSize / SignatureSize of the last list over {0,1,15,16,17,27,28,29,exact±1,+Size,2x,2^31,2^32-1,...}, trailing garbage / zeros of 1..40 bytes, a valid stream followed by the first 16/20/24/28 bytes of another list, unsupported types, single bit flips; plus the repository fixtures and cuts of them. Sources that FAIL instead of ending: every generated well-formed stream (and every fixture; positions sampled for streams above 800 bytes) is also handed to ReadSignatureDatabase and ReadSignatureList through a reader that delivers the first k bytes and then fails with a non-EOF error (I/O error, closed file, deadline exceeded, closed pipe; the error arriving after or together with the last bytes) for EVERY k in 0..len - all kinds and both modes at k = 0 and at every list boundary, where a clean end would be legitimate, the kind rotating elsewhere; oracle: the input did not end, so an error that does not match io.EOF is required and no database / list may be returned. SIZE CLASSES (streams kept in the case as a description - layout and salt - and built when evaluated; all entries pseudo-random and different, so every decoded entry is held against its own bytes of the input and the first differing entry is named): SHA-256, X.509 and externally-managed lists with 127 / 128 / 129 / 256 / 257 / 260 / 385 / 512 / 1023 entries (counts around powers of two, where a decoder that reads entries in batches changes its path), ONE list whose body exceeds 64 KiB (1366, 1365+1366, 2200 SHA-256 entries; 4 certificates of 20 000 bytes, 3 of 40 000, 2 of exactly 64 KiB, of 64 KiB + 1 and of 90 000 bytes); LIST BOUNDARIES AT POWERS OF TWO: streams in which a list ends exactly at offset 2^12, 2^16 and 2^20 (a stream longer than 1 MiB; thorough: 2^8..2^22, 2^24), followed by a further list or lists (which must be decoded), by nothing, by bytes that are no list or by a cut-off header (an error, never a shorter database). Streams above 100 KiB are judged against the harness's own walk of the stream (walkSpec, written from the layout in the statement); on every smaller stream the Lean Spec codec is asked as well and the two must agree (a disagreement is a tie failure). LISTS WITHOUT ENTRIES (ListSize = 28 + HeaderSize, where the size equation holds for any SignatureSize and only the explicit bounds decide): types X.509 (also with a 3-byte header), SHA-256, externally-managed, SHA-1, unknown x SignatureSize in 0..18, 27, 28, 47..49, 2^16, 2^31-1, 2^31, 2^32-1, each alone, twice, in front of, behind and between well-formed lists. ENTRY CLASSES random bytes never produce (80 streams + truncations of them): one entry several times in a list, PEM-shaped X.509 entry bytes, equal data under different owners, all-zero entries - accepted only as exactly the lists the layout defines, never as a shorter, de-duplicated or re-coded database. ENTRY POINTS: on every stream SignatureDatabase.Unmarshal (receiver that held another list) and ReadSignatureList on the first list must give the verdict / lists of ReadSignatureDatabase and consume the whole buffer / exactly ListSize bytes, and Marshal (empty destination and one holding content), WriteSignatureDatabase into a plain writer and the lists' own Bytes() must give the bytes of Bytes(). Non-trivial: non-empty; distinct = distinct byte strings (x failure position, kind, mode).",
 		Assume: []string{},
 		Eval:   c08Eval, Gen: c08Gen,
 	})
